@@ -76,6 +76,28 @@ def state_of(sim) -> str:
     return json.dumps(norm_state(sim.describe_state()), sort_keys=True, default=str)
 
 
+def component_missing_kind(net, action: str, o: Dict) -> Optional[str]:
+    """Which kind of component named by the action's parameters does NOT exist right now (None if all exist)?
+    Only kinds for which 'does not exist' is unambiguous: node, service, application, nic."""
+    node_name = o.get("node_name") or o.get("target_router") or o.get("target_nodename") or o.get(
+        "target_firewall_nodename") or o.get("source_node")
+    if node_name is None:
+        return None
+    node = net.get_node_by_hostname(node_name)
+    if node is None:
+        return "node"
+    if "service_name" in o and o["service_name"] not in node.software_manager.software:
+        return "service"
+    if "application_name" in o and not action.endswith(("-install", "-remove")) and \
+            o["application_name"] not in node.software_manager.software:
+        return "application"
+    if "nic_num" in o and o["nic_num"] not in node.network_interface:
+        return "nic"
+    if "port_num" in o and o["port_num"] not in node.network_interface:
+        return "nic"
+    return None
+
+
 def component_exists(net, action: str, o: Dict) -> bool:
     """Do the action's parameters name components that exist right now?"""
     node_name = o.get("node_name") or o.get("target_router") or o.get("target_nodename") or o.get(
@@ -145,6 +167,7 @@ def run_case(case: Dict) -> CaseResult:
     for j, pr in enumerate(case["probes"]):
         kind = pr[0]
         expect_reachable = None
+        missing = None
         tmpl = None
         if kind == "action":
             idx = pr[1] % len(am.action_map)
@@ -155,6 +178,7 @@ def run_case(case: Dict) -> CaseResult:
                 res.violate(f"raise:form_request:{exc_sig(e)}", f"probe#{j} {act}: {exc_msg(e)}")
                 break
             expect_reachable = component_exists(net, act, opts) and act != "do-nothing"
+            missing = component_missing_kind(net, act, opts)
             tmpl = "action:" + act
             mut = "none"
         else:
@@ -228,7 +252,15 @@ def run_case(case: Dict) -> CaseResult:
                             f"probe#{j} request {req} was stopped by {rkind} at depth {depth_ret} but describe_state changed")
             if depth_ret >= 2 and non_initial:
                 nt_keys.add((tmpl, mut, depth_ret, rkind))
-        if kind == "action" and expect_reachable:
+        if kind == "action" and missing and resp.status in ("success", "pending"):
+            res.violate(f"missing-{missing}-answered-{resp.status}:{tmpl}",
+                        f"probe#{j} {tmpl} {opts}: the {missing} it names does not exist, yet request {req} -> {rkind}/{resp.status}")
+        if kind == "action" and expect_reachable and rkind == "keymiss" and str(detail) not in {str(v) for v in opts.values()}:
+            # the element that was not found is not a component NAME taken from the action's parameters but an
+            # operation that this kind of component does not offer (e.g. 'execute' on c2-server): the action type
+            # cannot address that component, which is outside "every component ... it can address"
+            res.label("verb-not-offered-by-component")
+        elif kind == "action" and expect_reachable:
             if rkind in ("keymiss", "empty") or resp.status == "unreachable":
                 res.violate(f"existing-target-unreachable:{tmpl}", f"probe#{j} {tmpl} options name existing components but request {req} -> {rkind}/{resp.status}")
         if res.violations:
